@@ -899,6 +899,23 @@ class Intrinsics:
         f = z3.Function(f'ghost_{name}', *([z.sort() for z in zs] + [z3.BoolSort()]))
         return f(*zs)
 
+    # ufmaps (C13): key-valued ghosts and total accessors of symbolic maps
+    def s_ghost_key(self, P, name, kname, *args):
+        from . import ufmaps
+        return ufmaps.ghost_key(P, name, kname, self._ghost_args(args))
+
+    def s_map_at(self, P, m, k):
+        from . import ufmaps
+        return ufmaps.map_at(P, m, k)
+
+    def s_rel_in(self, P, m, k):
+        from . import ufmaps
+        return ufmaps.rel_in(P, m, k)
+
+    def s_rel_has(self, P, m, k, e):
+        from . import ufmaps
+        return ufmaps.rel_has(P, m, k, e)
+
     def s_forall_keys(self, P, kname, fn):
         return containers.forall_keys(P, kname, fn)
 
